@@ -173,6 +173,9 @@ func (World) Generate(r *engine.RNG, tier string) *engine.Script {
 		op := engine.Op{Op: "publish", Struct: kind, Shape: genShape(r.Fork(), kind, prop == "C06"), N: []int64{int64(i)}}
 		if prop == "C06" {
 			op.Op = "construct"
+			// the transport delivers the serialised structure only after this many
+			// further publications
+			op.N = append(op.N, int64(r.PickInt(0, 0, 1, 1, 2, 3, 5)))
 			if r.Chance(1, 3) {
 				// the application looks at the value (every read-only accessor)
 				// between constructing it and verifying / publishing it
@@ -894,7 +897,7 @@ func c06Label(sh *engine.Shape) string {
 
 // c06Check runs the C06 obligations for one shape; it returns "" or the
 // failed obligation and a detail.
-func c06Check(o *engine.Outcome, sh *engine.Shape, count bool, ef *engine.Fault, useFirst bool) (string, string) {
+func c06Check(o *engine.Outcome, sh *engine.Shape, count bool, ef *engine.Fault, useFirst bool, wire *inflight) (string, string) {
 	var c *constructed
 	var val any
 	var err error
@@ -998,18 +1001,66 @@ func c06Check(o *engine.Outcome, sh *engine.Shape, count bool, ef *engine.Fault,
 	if count {
 		o.Probe("stored_by_floodfill:" + sh.Kind)
 	}
+	if wire != nil {
+		// the transport keeps the very slice Bytes() handed out
+		*wire = inflight{b: b, snap: append([]byte(nil), b...), kind: sh.Kind, idSig: c.idSig, idKey: c.idKey, label: c06Label(sh)}
+	}
 	return "", ""
+}
+
+// inflight is a serialised structure on its way: published (verified, handed
+// to the transport) but delivered only after the publisher has gone on to
+// construct and serialise other structures.
+type inflight struct {
+	b, snap   []byte
+	kind      string
+	idSig     int
+	idKey     []byte
+	label     string
+	op        int
+	deliverAt int
+}
+
+func deliverHeld(o *engine.Outcome, p *inflight, now int) {
+	o.Fault("delivery-delayed-past-later-publications")
+	changed := !bytes.Equal(p.b, p.snap)
+	var accepted, parsed bool
+	if o.Guard("floodfill (delayed)", func() { accepted, _, parsed, _ = floodfill(p.kind, append([]byte(nil), p.b...), p.idSig, p.idKey) }) {
+		return
+	}
+	switch {
+	case !parsed || !accepted:
+		o.Violate("C06/serialisation-held-by-the-transport-no-longer-verifies/"+p.label, "op %d %s: the bytes Bytes() returned verified when published; delivered %d operations later they do not (parsed=%v accepted=%v, bytes changed meanwhile=%v)", p.op, p.kind, now-p.op, parsed, accepted, changed)
+	case changed:
+		o.Violate("C06/serialisation-changed-after-it-was-handed-out/"+p.label, "op %d %s: the slice Bytes() returned was rewritten while the publisher constructed other structures (it still parses and verifies, as something else)", p.op, p.kind)
+	}
+	o.FP.Step("delayed-delivery", p.op, parsed, accepted, changed)
 }
 
 // useDeny: methods that are not read-only uses of a constructed value.
 var useDeny = map[string]bool{".Sign": true, ".AddAddress": true, ".AddLease": true, ".SetOptions": true}
 
 func executeC06(s *engine.Script, o *engine.Outcome) {
+	var held []*inflight
+	defer func() {
+		for _, p := range held {
+			deliverHeld(o, p, len(s.Ops))
+		}
+	}()
 	for i := range s.Ops {
 		op := &s.Ops[i]
 		if op.Op != "construct" || op.Shape == nil {
 			continue
 		}
+		keep := held[:0]
+		for _, p := range held {
+			if p.deliverAt <= i {
+				deliverHeld(o, p, i)
+			} else {
+				keep = append(keep, p)
+			}
+		}
+		held = keep
 		sh := op.Shape
 		o.NonTrivial = true
 		var ef *engine.Fault
@@ -1026,11 +1077,17 @@ func executeC06(s *engine.Script, o *engine.Outcome) {
 			}
 		}
 		useFirst := len(op.S) > 0 && op.S[0] == "use-first"
-		fail, detail := c06Check(o, sh, true, ef, useFirst)
+		var wire inflight
+		fail, detail := c06Check(o, sh, true, ef, useFirst, &wire)
+		if fail == "" && wire.b != nil && len(op.N) > 1 && op.N[1] > 0 {
+			wire.op, wire.deliverAt = i, i+int(op.N[1])
+			w := wire
+			held = append(held, &w)
+		}
 		if fail != "" {
 			feat := c06Label(sh)
 			if useFirst {
-				if f2, _ := c06Check(o, sh, false, ef, false); f2 != fail {
+				if f2, _ := c06Check(o, sh, false, ef, false, nil); f2 != fail {
 					feat += "/only-after-read-only-accessors-were-called"
 				}
 			}
@@ -1038,7 +1095,7 @@ func executeC06(s *engine.Script, o *engine.Outcome) {
 			if len(sh.Opts) > 0 || len(sh.Sub) > 0 {
 				plain := *sh
 				plain.Opts, plain.Sub = nil, nil
-				if f2, _ := c06Check(o, &plain, false, ef, useFirst); f2 != fail {
+				if f2, _ := c06Check(o, &plain, false, ef, useFirst, nil); f2 != fail {
 					feat += "/needs-options"
 					if hasShortPair(sh) {
 						feat += "-with-a-pair-shorter-than-6-bytes"
